@@ -50,7 +50,7 @@ def one_case(rng, res, family):
         elif family == "c06":
             ch, desc = c06.gen_case(rng, root)
         elif family == "c07":
-            ch, desc, hooks, _failed = c07.gen_case(rng, root); inspect_timeout = 1
+            ch, desc, hooks, _failed = c07.gen_case(rng, root); inspect_timeout = c07.timeout_for(ch)
         else:
             ch, desc = c08.gen_case(rng, root)
         normalise_tampers(ch)
